@@ -280,10 +280,11 @@ def model_arrays(model):
 
 
 def snapshot_digest(model, queries):
-    parts = [core.arr_digest(a) for a in model_arrays(model)]
+    """bitwise (same process): any change of a returned model's parameters or answers is a change."""
+    parts = [core.arr_digest_exact(a) for a in model_arrays(model)]
     parts.append(repr(model.total))
     for q in queries:
-        parts.append(core.arr_digest(model.project(tuple(q)).values))
+        parts.append(core.arr_digest_exact(model.project(tuple(q)).values))
     return core.digest(parts)
 
 
@@ -573,7 +574,7 @@ def run_case(case, prop):
                         faults['fresh-reference-compared'] = faults.get('fresh-reference-compared', 0) + 1
                     dg = snapshot_digest(model, snap_queries)
                     returned.append((model, dg, snap_queries, len(est_sets)))
-                    digests.append(dg)
+                    digests.append(core.digest([core.arr_digest(a) for a in model_arrays(model)]))
                 elif prop == 'C08':
                     check_coherent(mbi, model, case, tag, solver, viol, probes)
                     returned.append((model, None, None, len(est_sets)))
